@@ -334,7 +334,7 @@ def u_tooler(c):
     c.prove("untooler/one-pop", st == "ok" and r is fn and events == [("push", caps), ("pop", caps)] and fn.attrs.get("__ptera_stack__") is stack)
 
 
-@unit("autotool", ["C05", "C10", "C18", "C07", "C13"], [O + ":autotool", S + ":Call.wrap_functions", S + ":verify"], mode="bounded",
+@unit("autotool", ["C05", "C10", "C18", "C07", "C13", "C17", "C02", "C11"], [O + ":autotool", S + ":Call.wrap_functions", S + ":verify"], mode="bounded",
       bound="selector trees of depth <= 2 with <= 2 children")
 def u_autotool(c):
     """autotool(sel): one _tooler(function, captures) per Call level of the selector tree (pre-order), then verify;
@@ -390,7 +390,7 @@ def u_autotool(c):
         c.prove("refused-part-way/TypeError", st == "raise" and isinstance(r, TypeError))
         undone = [e for e in events if e[0] == "untool"]
         c.prove("refused-part-way/exactly-the-functions-tooled-so-far-are-untooled", len(undone) == k_ and all(
-            e[1] is f and e[2] is cp for e, (f, cp) in zip(undone, reversed(levels[:k_]))), note=f"fail at {k_}: untooled {[e[1].name for e in undone]}", only=["C05", "C10", "C07", "C13"])
+            e[1] is f and e[2] is cp for e, (f, cp) in zip(undone, reversed(levels[:k_]))), note=f"fail at {k_}: untooled {[e[1].name for e in undone]}", only=["C05", "C10", "C07", "C13", "C17", "C02", "C11"])
         return
     st, r = run(it, it.get_global(O, "autotool"), [root], dict(undo=undo))
     tag = "untool" if undo else "tool"
@@ -544,6 +544,9 @@ def u_probe_lifecycle(c):
     def done_then_emit(it_, a, k):
         r_ = it_.call(orig_done, a, k)
         it_.call(it_.getattr(prb, "_emit"), [d1], {})
+        # ... and a subscriber that deactivates the probe when it is told the result (deactivation is already under way) changes nothing:
+        # every stage is still completed exactly once, the tooling is removed once
+        it_.call(it_.getattr(prb, "deactivate"), [], {})
         return r_
 
     o1.attrs["on_completed"] = SummaryFn("on_completed", done_then_emit)
@@ -635,6 +638,7 @@ def u_fanout(c):
             it.loopspecs = {(P + ":Probe.__exit__", 0): LoopSpec(ghost=lambda it_, env, i: DN.at(i), axioms=lambda it_, env, i: DN.axioms(i))}
             prox.cls = ClassV("Probe_sub", P, PR.node, [PR], PR.env)
             it.get_global(P, "global_probes").add(prox)  # an ACTIVE probe (a second deactivation does nothing: unit Probe.lifecycle)
+            prox.fields["_live"] = True
         else:
             prox.cls = ClassV("SP_sub", G, SP.node, [SP], SP.env)
         prox.cls.attrs["_exit"] = SummaryFn("_exit", lambda it_, a, k: exits.append(it_.ctx.log))
@@ -723,7 +727,7 @@ def u_overridable_emit(c):
     c.prove("third-binding/override-applies-again", st == "ok" and r3 is not absent)
 
 
-@unit("Probe.multi-selector", ["C05", "C07", "C17", "C02", "C10", "C11"], [P + ":Probe.__init__", P + ":Probe._make_rule", P + ":Probe._enter", P + ":Probe._exit",
+@unit("Probe.multi-selector", ["C05", "C07", "C17", "C02", "C10", "C11", "C14"], [P + ":Probe.__init__", P + ":Probe._make_rule", P + ":Probe._enter", P + ":Probe._exit",
                                                              P + ":Probe._install_tooling", P + ":Probe._uninstall_tooling"], mode="bounded",
       bound="one probe given 3 selectors, each with or without a focus, every probe_type, autotool refusing at any position or not at all",
       assumed=["autotool is used through ghost events (its own contract -- a refused selector leaves nothing behind -- is the 'autotool' unit)"])
@@ -748,13 +752,23 @@ def u_probe_multi(c):
         fnobj = SymObj(f"f{i}", Val.ref(z3.IntVal(c.new_id())))
         cap = it.call(Element, [], dict(name="a", capture="a", tags=frozenset({1}) if fo else frozenset()))
         sels.append(it.call(Call, [], dict(element=it.call(Element, [], dict(name=fnobj)), captures=(cap,))))
+    if c.choose(2, "same-selector-given-twice"):
+        # selectors are interned: a probe given the same selector twice (by name and by reference, say) holds the SAME object twice; it
+        # is tooled once per occurrence and undone once per occurrence (the counts of the functions stay balanced)
+        sels[2] = sels[0]
+        focus[2] = focus[0]
     count = {id(s): 0 for s in sels}
     negative = []
+    first_seen = []
 
     def autotool(it_, f, a, k):
         undo = bool(k.get("undo", False))
         events.append(("autotool", a[0], undo))
-        if not undo and a[0] is sels[refuse_at if refuse_at < N else 0] and refuse_at < N:
+        first_seen.append(a[0]) if not undo else None
+        nth = sum(1 for x in first_seen if x is a[0])
+        idx_refused = refuse_at if refuse_at < N else -1
+        is_refused_occurrence = idx_refused >= 0 and a[0] is sels[idx_refused] and nth == sum(1 for x in sels[:idx_refused + 1] if x is sels[idx_refused])
+        if not undo and is_refused_occurrence:
             # contract of autotool: a refused selector leaves no trace (its own pushes are undone before the error propagates)
             raise PyRaise(it_.instantiate(it_.get_global(S, "SelectorError"), ["refused"], {}))
         count[id(a[0])] += -1 if undo else 1
@@ -786,15 +800,16 @@ def u_probe_multi(c):
         c.prove("refused/error-propagates", st == "raise" and exc_name(r) == "SelectorError")
         c.prove("refused/no-count-ever-negative", not negative)
         c.prove("refused/every-count-back-to-zero", all(v == 0 for v in count.values()))
-        c.prove("refused/selectors-after-the-refused-one-untouched", all(e[1] is not s for e in events for s in sels[refuse_at + 1:]))
+        later = [s for s in sels[refuse_at + 1:] if not any(s is t for t in sels[:refuse_at + 1])]
+        c.prove("refused/selectors-after-the-refused-one-untouched", all(e[1] is not s for e in events for s in later))
         c.prove("refused/nothing-installed-or-registered", var.value is None and prb not in gp)
         return
     c.prove("enter/no-raise", st == "ok")
-    c.prove("enter/each-selector-tooled-once-in-order", events == [("autotool", s, False) for s in sels])
+    c.prove("enter/each-selector-tooled-once-per-occurrence-in-order", len(events) == N and all(e[1] is s and e[2] is False for e, s in zip(events, sels)))
     c.prove("enter/overlay-installed-with-all-rules", isinstance(var.value, Obj) and [p[1] for p in var.value.fields["handler_pairs"]] == list(rules) and prb in gp)
     del events[:]
     st, r = run(it, it.getattr(prb, "__exit__"), [None, None, None])
     c.prove("exit/no-raise", st == "ok")
-    c.prove("exit/each-selector-undone-once", sorted(id(e[1]) for e in events) == sorted(id(s) for s in sels) and all(e[2] for e in events) and not negative
+    c.prove("exit/each-selector-undone-once-per-occurrence", sorted(id(e[1]) for e in events) == sorted(id(s) for s in sels) and all(e[2] for e in events) and not negative
             and all(v == 0 for v in count.values()))
     c.prove("exit/nothing-left", var.value is None and prb not in gp)
